@@ -88,5 +88,17 @@ func Shared() {
 	vx.Assert("C08.no_key_used_after_destroy", e.Secrets.UseAfterClose() == 0)
 	f.Close()
 	vx.Assert("C08.no_key_used_after_destroy", e.Secrets.UseAfterClose() == 0)
+	// the accounting side of the same schedules (C09): whatever was evicted, reloaded or refreshed while somebody held
+	// it, once every session and the factory are closed every secret has been released exactly once
+	if vx.CalledFrom("getOrLoadSystemKey", "intermediateKeyFromEKR") == 0 { // (listed known finding C09-sk-ref-...)
+		vx.Assert("C09.all_released_after_concurrent_evictions", e.Secrets.Live() == 0)
+		once := true
+		for _, sc := range e.Secrets.Secrets {
+			if sc.CloseCount != 1 {
+				once = false
+			}
+		}
+		vx.Assert("C09.each_secret_released_exactly_once_after_concurrent_evictions", once)
+	}
 	vx.Reach("C08.end")
 }
